@@ -61,7 +61,7 @@ def decode(sel, cur):
             hint = [None, T1, T2][rd(sel, cur, 3)]
             doc = [None, T1, T2][rd(sel, cur, 3)]
             doc_default = ["", "5"][rd(sel, cur, 2)] if doc is not None else ""
-            code_default = rd(sel, cur, 2) == 1 if hint is not None else False
+            code_default = rd(sel, cur, 2) == 1
         else:  # quick tier: the second parameter ranges over 4 combinations
             hint = [None, T1][rd(sel, cur, 2)]
             doc = [None, T2][rd(sel, cur, 2)]
@@ -83,7 +83,9 @@ def run(params, ret_hint, res_docs, pref, warn):
     ret = shim.tuple_type([_mypy(t) for t in ret_hint]) if isinstance(ret_hint, tuple) else _mypy(ret_hint)
     node = shim.func_def("f", "pkg.m.f", args, ret=ret, annotated=True,
                          body=[shim.expr_stmt(shim.mk(shim.N.EllipsisExpr))])
-    parser = StubParser({n: ParameterDocstring(type=d, default_value=dd, description="") for n, h, d, dd, cd in params},
+    # griffe reports the default of the signature (as source text) when the docstring itself names none
+    parser = StubParser({n: ParameterDocstring(type=d, default_value=dd or ("1" if cd and d is not None else ""), description="")
+                         for n, h, d, dd, cd in params},
                         [ResultDocstring(type=t, description="", name="") for t in res_docs])
     api = API("", "pkg", "")
     vis = V.MyPyAstVisitor(parser, api, {}, pref, warn)
@@ -123,6 +125,9 @@ def reconcile(sel: List[int]) -> bool:
         # (b) parameter types per the table; defaults are not the subject of the preference
         conflicts = 0
         for p, (name, hint, doc, dd, cd) in zip(fw.parameters, params):
+            why = "parameter-without-type-hint" if hint is None else "docstring-preference" if pref == TypeSourcePreference.DOCSTRING else "code-preference"
+            if hint is None and cd:
+                hint = T1  # the type the analyser infers from the literal default (= 1) counts as the code's type
             if hint is not None and doc is not None:
                 want = hint if pref == TypeSourcePreference.CODE else doc
                 conflicts += hint != doc
@@ -130,10 +135,10 @@ def reconcile(sel: List[int]) -> bool:
                 want = hint if hint is not None else doc
             if p.type != want:
                 labels.append("parameter-type-not-per-preference-table")
-            if cd and not (p.is_optional and p.default_value == 1):
-                labels.append("code-default-overwritten:" + ("docstring-preference" if pref == TypeSourcePreference.DOCSTRING else "docstring-type-only"))
-            if not cd and hint is not None and p.is_optional:
-                labels.append("required-parameter-became-optional:" + ("docstring-preference" if pref == TypeSourcePreference.DOCSTRING else "code-preference"))
+            if cd and not (p.is_optional and str(p.default_value) == "1"):
+                labels.append(f"code-default-overwritten:{why}")
+            if not cd and p.is_optional:
+                labels.append(f"required-parameter-became-optional:{why}")
         # (c) result types per the table
         code_results = list(ret_hint) if isinstance(ret_hint, tuple) else ([ret_hint] if ret_hint is not None else [])
         for i in range(max(len(code_results), len(res_docs))):
